@@ -1105,6 +1105,7 @@ func (g *gen) stmtIface() {
 	case 1:
 		g.line("var %s interface{} = %s", i, e1)
 		g.line("q%s := &%s", i, i)
+		g.line("_ = q%s", i)
 		if g.chance("ifacestore", 2) {
 			t2 := g.oneOf("ifacetyp2", types)
 			g.line("*q%s = %s", i, g.expr(t2, 1))
